@@ -24,7 +24,12 @@ RULE = ("assign_to_nearest_center with 1..8 centres that are frames or arbitrary
         "memory layouts (metric evaluated on a fresh contiguous copy); a metric returning one reused buffer; md.Trajectory frames with "
         "centres in one md.Trajectory (frame-by-frame branch) or a list; estimator predict histories fit(A)/predict(short)/fit(B)/"
         "predict(short)/predict(long) for KCenters and KHybrid on md.Trajectory data, each predict judged against the centres of the "
-        "latest fit. non-trivial := >= 2 trajectories or >= 2 centres")
+        "latest fit. Flat centre indices as ndarray (int64 / int32 / the array find_cluster_centers returns), every centre beyond trajectory 0: "
+        "arguments unchanged, the same result partitioned twice, partition_indices on its own. predict on float64 data whose values the "
+        "fit dtype (float32 / int32 / int64) cannot hold, with a user callable metric accepting mixed dtypes. reassign() with two or three "
+        "(topology, trajectories, selection) sets over one system of several atom groups: the same topology file named for every set with "
+        "different equal-sized selections (index ranges / chains), or one file per set; frames follow the centres only in the selected "
+        "group. non-trivial := >= 2 trajectories or >= 2 centres")
 SHARD = 100
 
 
@@ -69,7 +74,8 @@ def generate(rng, tier):
         boundary = starts + [s + l - 1 for s, l in zip(starts, lens)]
         ctrs = [rng.choice(boundary) if rng.random() < 0.6 else rng.randrange(n) for _ in range(k)]
         cases.append({"kind": "partition", "n": n, "lens": lens, "ctrs": ctrs,
-                      "asg": [rng.randrange(k) for _ in range(n)], "dst": [rng.randrange(0, 20) for _ in range(n)]})
+                      "asg": [rng.randrange(k) for _ in range(n)], "dst": [rng.randrange(0, 20) for _ in range(n)],
+                      "ctr_form": rng.choice(["list", "ndarray", "ndarray", "int32"])})
         cases.append({"kind": "plist", "n": n, "lens": lens if rng.random() < 0.7 else lens[:-1] + [lens[-1] + rng.choice([-1, 1, 2])],
                       "vals": [rng.randrange(100) for _ in range(n)]})
         m = rng.randint(1, 9)
@@ -77,6 +83,36 @@ def generate(rng, tier):
                       "dst": [rng.randrange(0, 4) for _ in range(m)]})
         L = [rng.randint(1, 9) for _ in range(rng.randint(1, 7))]
         cases.append({"kind": "batches", "lens": L, "bs": rng.randint(max(L) + 1, max(L) + 12)})
+    # flat centre indices held in an ndarray (what find_cluster_centers and predict return), every centre beyond
+    # trajectory 0 and at least one in the last trajectory; the result is partitioned twice
+    for i in range(8 if tier == "quick" else 60):
+        n = rng.randint(4, 14)
+        while True:
+            lens = _lens(rng, n)
+            if len(lens) >= 2:
+                break
+        k = rng.randint(1, 4)
+        ctrs = [rng.randrange(lens[0], n) for _ in range(k - 1)] + [rng.randrange(n - lens[-1], n)]
+        rng.shuffle(ctrs)
+        cases.append({"kind": "partition", "n": n, "lens": lens, "ctrs": ctrs, "ctr_form": ["ndarray", "int32", "fcc"][i % 3],
+                      "asg": [rng.randrange(k) for _ in range(n)], "dst": [rng.randrange(0, 20) for _ in range(n)]})
+    # predict on data of a wider dtype than the fitted data (integer / float32 features at fit time, float64 data
+    # with values the fit dtype cannot hold), user callable metric (the library kernels refuse mixed dtypes)
+    for i in range(8 if tier == "quick" else 60):
+        base = cc._base(rng, 10, pam=False)
+        while base["metric"] == "matrix":
+            base = cc._base(rng, 10, pam=False)
+        base.pop("buf", None)
+        base.pop("layout", None)
+        n, dim = base["n"], len(base["X"][0])
+        base["dtype"] = ["float32", "int32", "int64", "float32"][i % 4]
+        Ydt = "float64" if (base["dtype"] != "float32" or i % 8 < 4) else "float64x"      # float64x: float32-representable control
+        fr = (lambda: rng.choice([0.5, 0.25, 0.75, 0.125])) if base["dtype"] != "float32" else \
+             (lambda: rng.choice([1, 3, 5, 7]) * 2.0 ** -rng.randint(26, 30))
+        if Ydt == "float64x":
+            fr = lambda: rng.choice([0.5, 0.25, 0.0])
+        Y = [[v + fr() for v in p_] for p_ in cc.gen_points(rng, rng.randint(2, 7), dim, 10)]
+        cases.append(dict(base, kind="predict", k=rng.randint(1, min(4, n)), Y=Y, Ydtype="float64", mixed=True))
     # lengths handed over as narrow-integer arrays whose running sum leaves the dtype's range
     for _ in range(6 if tier == "quick" else 40):
         dt = rng.choice(["uint8", "int8", "uint8", "int16"])
@@ -132,6 +168,17 @@ def generate(rng, tier):
         cases.append({"kind": "batch_reassign", "lens": L, "batch_frames": rng.randint(max(L) + 1, max(L) + 6),
                       "seed": rng.randrange(10 ** 6), "k": rng.randint(2, 4),
                       "entry": combos[bi % 4][0], "cform": combos[bi % 4][1]})
+    # reassign() with several (topology, trajectories, atom selection) sets: the same topology file named for every
+    # set with different selections of equal size (two or three groups of atoms of one system), or one file per set
+    for bi in range(4 if tier == "quick" else 16):
+        nsets = 2 + (bi % 3 == 2)
+        L = [rng.randint(1, 5) for _ in range(rng.randint(nsets, nsets + 3))]
+        cuts = sorted(rng.sample(range(1, len(L)), nsets - 1))
+        cases.append({"kind": "batch_reassign", "lens": L, "batch_frames": rng.randint(max(L) + 1, max(L) + 6),
+                      "seed": rng.randrange(10 ** 6), "k": rng.randint(2, 4), "entry": "reassign",
+                      "cform": ["list", "traj", "traj-precentered"][bi % 3],
+                      "sets": {"n": nsets, "cuts": cuts, "same_top": bi % 4 != 3, "sel": ["index", "chainid", "index"][bi % 3],
+                               "order": rng.sample(range(nsets), nsets)}})
     return cases
 
 
@@ -229,6 +276,17 @@ def _make_top(n_atoms):
     return top
 
 
+def _make_top_groups(n_groups, na):
+    """one system of n_groups x na atoms, each group a chain of its own"""
+    import mdtraj as md
+    top = md.Topology()
+    for _ in range(n_groups):
+        ch = top.add_chain()
+        for _ in range(na):
+            top.add_atom("CA", md.element.carbon, top.add_residue("ALA", ch))
+    return top
+
+
 def _batch_reassign(c):
     import mdtraj as md, psutil
     from enspara.cluster import util
@@ -236,16 +294,38 @@ def _batch_reassign(c):
     na, k = 5, c["k"]
     top = _make_top(na)
     shapes = rs.normal(scale=1.0, size=(k, na, 3))
+    sets = c.get("sets")
     tmp = tempfile.mkdtemp(prefix="c10_")
     try:
         topf = os.path.join(tmp, "top.pdb")
-        md.Trajectory(shapes[0:1], top).save_pdb(topf)
+        if sets:
+            # trajectories of a system of nsets groups of `na` atoms; the frames of set s follow the centres in group
+            # order[s] (the atoms its selection names) and hold OTHER centres' shapes in the other groups
+            ng = sets["n"]
+            bigtop = _make_top_groups(ng, na)
+            md.Trajectory(np.concatenate([shapes[0:1]] * ng, axis=1), bigtop).save_pdb(topf)
+            bounds = [0] + list(sets["cuts"]) + [len(c["lens"])]
+            set_of = [s_ for s_ in range(ng) for _ in range(bounds[s_ + 1] - bounds[s_])]
+            group_of = [sets["order"][s_] for s_ in set_of]
+            sel = (lambda g: "chainid %d" % g) if sets["sel"] == "chainid" else (lambda g: "index >= %d and index < %d" % (g * na, (g + 1) * na))
+        else:
+            md.Trajectory(shapes[0:1], top).save_pdb(topf)
         files, which_all = [], []
         for i, n in enumerate(c["lens"]):
             which = rs.randint(0, k, size=n)
             xyz = shapes[which] + rs.normal(scale=0.02, size=(n, na, 3)) + rs.normal(scale=2.0, size=(n, 1, 3))
             fn = os.path.join(tmp, "t%02d.h5" % i)
-            md.Trajectory(xyz.astype(np.float32), top).save_hdf5(fn)
+            if sets:
+                parts = []
+                for g in range(ng):
+                    if g == group_of[i]:
+                        parts.append(xyz)
+                    else:
+                        other = (which + 1 + (g % max(1, k - 1))) % k if k > 1 else which
+                        parts.append(shapes[other] + rs.normal(scale=0.02, size=(n, na, 3)) + rs.normal(scale=2.0, size=(n, 1, 3)))
+                md.Trajectory(np.concatenate(parts, axis=1).astype(np.float32), bigtop).save_hdf5(fn)
+            else:
+                md.Trajectory(xyz.astype(np.float32), top).save_hdf5(fn)
             files.append(fn)
             which_all.append(which.tolist())
         centers = md.Trajectory(shapes.astype(np.float32), top)
@@ -261,13 +341,37 @@ def _batch_reassign(c):
                 cen = [cen[i] for i in range(len(cen))]
             elif c["cform"] == "traj-precentered":
                 cen.center_coordinates()
-            asg, dst = util.reassign([topf], [files], ["all"], cen, frac_mem=frac)
+            if sets:
+                tops = []
+                for s_ in range(ng):
+                    if sets["same_top"]:
+                        tops.append(topf)
+                    else:                               # one topology file per set (same system)
+                        tf = os.path.join(tmp, "top%d.pdb" % s_)
+                        shutil.copy(topf, tf)
+                        tops.append(tf)
+                trjs = [files[bounds[s_]:bounds[s_ + 1]] for s_ in range(ng)]
+                atoms = [sel(sets["order"][s_]) for s_ in range(ng)]
+                args_before = (list(tops), [list(t) for t in trjs], list(atoms))
+                asg, dst = util.reassign(tops, trjs, atoms, cen, frac_mem=frac)
+                if (tops, trjs, atoms) != args_before:
+                    raise AssertionError("reassign modified its list arguments")
+            else:
+                asg, dst = util.reassign([topf], [files], ["all"], cen, frac_mem=frac)
         rows = []
         for i, fn in enumerate(files):
-            trj = md.load(fn)
+            if sets:
+                g = group_of[i]
+                trj = md.load(fn, atom_indices=np.arange(g * na, (g + 1) * na))
+                trj = md.Trajectory(trj.xyz, top)
+            else:
+                trj = md.load(fn)
             ref = np.array([md.rmsd(trj, centers, frame=j) for j in range(k)])
             rows.append({"asg": [int(v) for v in asg[i]], "dst": [float(v) for v in dst[i]], "ref": ref.tolist()})
-        return {"rows": rows, "batch_size": int(bs), "n_batches": len(util.compute_batches(c["lens"], bs))}
+        out = {"rows": rows, "batch_size": int(bs), "n_batches": len(util.compute_batches(c["lens"], bs))}
+        if sets:
+            out["groups"] = group_of
+        return out
     finally:
         shutil.rmtree(tmp, ignore_errors=True)
 
@@ -305,29 +409,63 @@ def run_impl(c):
                     "dst": [str(F(float(v))) for v in d], "unchanged": cc.xhash(X) == h0}
         if kind == "predict":
             X = cc.make_X(c)
-            Y = cc.layout_of(np.array(c["Y"], dtype=X.dtype), c.get("layout"))
+            Y = cc.layout_of(np.array(c["Y"], dtype=c.get("Ydtype") or X.dtype), c.get("layout"))
+            ref = util._get_distance_method(c["metric"])
+            metric = cc.make_metric(c)
+            if c.get("mixed"):
+                # a user callable that accepts any mix of dtypes: the library metric on float64 copies of both arguments
+                lib = ref
+                ref = metric = lambda A, b: lib(np.array(A, dtype=np.float64, order="C"), np.array(b, dtype=np.float64, order="C"))
             with cc.Watchdog():
-                est = KC.KCenters(cc.make_metric(c), n_clusters=c["k"]).fit(X)
+                est = KC.KCenters(metric, n_clusters=c["k"]).fit(X)
                 h0 = cc.xhash(Y)
                 r = est.predict(Y)
-            ref = util._get_distance_method(c["metric"])
             Yc = np.array(Y, order="C", copy=True)
             return {"Mc": [[str(F(float(v))) for v in ref(Yc, np.array(y))] for y in est.centers_], "asg": [int(v) for v in r.assignments],
                     "dst": [str(F(float(v))) for v in r.distances], "fcc": [int(v) for v in r.center_indices],
-                    "unchanged": cc.xhash(Y) == h0,
+                    "unchanged": cc.xhash(Y) == h0 and str(Y.dtype) == (c.get("Ydtype") or str(X.dtype)),
                     "centers_kept": len(r.centers) == len(est.centers_) and all(np.array_equal(a, b) for a, b in zip(r.centers, est.centers_))
                                     and all(np.array_equal(a, X[int(i)]) for a, i in zip(est.centers_, est.result_.center_indices))}
         if kind == "phist":
             with cc.Watchdog(60):
                 return _phist(c)
         if kind == "partition":
-            res = util.ClusterResult(center_indices=list(c["ctrs"]), assignments=np.array(c["asg"]),
-                                     distances=np.array(c["dst"], dtype=float), centers=[None] * len(c["ctrs"]))
+            form = c.get("ctr_form", "list")
+            if form == "list":
+                ci = list(c["ctrs"])
+            elif form == "fcc":
+                # the very array find_cluster_centers returns: a labelling whose label j has its closest member at ctrs[j]
+                # (needs distinct ctrs; otherwise a plain array)
+                ci = np.array(c["ctrs"])
+                if len(set(c["ctrs"])) == len(c["ctrs"]):
+                    a_ = np.zeros(c["n"], dtype=int)
+                    d_ = np.ones(c["n"])
+                    a_[:] = int(np.argmin(c["ctrs"]))          # every other frame: a member of some cluster, farther than its centre
+                    for j, f in enumerate(c["ctrs"]):
+                        a_[f], d_[f] = j, 0.0
+                    got = util.find_cluster_centers(a_, d_)
+                    if [int(v) for v in got] == list(c["ctrs"]):
+                        ci = got
+            else:
+                ci = np.array(c["ctrs"], dtype=("int32" if form == "int32" else "int64"))
+            a_arg, d_arg = np.array(c["asg"]), np.array(c["dst"], dtype=float)
+            res = util.ClusterResult(center_indices=ci, assignments=a_arg,
+                                     distances=d_arg, centers=[None] * len(c["ctrs"]))
             p = res.partition(c["lens"])
-            return {"asg_type": type(p.assignments).__name__, "dst_type": type(p.distances).__name__,
-                    "asg": [[int(v) for v in row] for row in p.assignments],
-                    "dst": [[int(v) for v in row] for row in p.distances],
-                    "ctr": [[int(t), int(f)] for t, f in p.center_indices]}
+            first = {"asg_type": type(p.assignments).__name__, "dst_type": type(p.distances).__name__,
+                     "asg": [[int(v) for v in row] for row in p.assignments],
+                     "dst": [[int(v) for v in row] for row in p.distances],
+                     "ctr": [[int(t), int(f)] for t, f in p.center_indices]}
+            first["args_after"] = {"ctrs": [int(v) for v in ci], "asg": [int(v) for v in a_arg], "dst": [int(v) for v in d_arg]}
+            p2 = res.partition(c["lens"])
+            first["again"] = {"asg": [[int(v) for v in row] for row in p2.assignments],
+                              "dst": [[int(v) for v in row] for row in p2.distances],
+                              "ctr": [[int(t), int(f)] for t, f in p2.center_indices]}
+            # the index conversion on its own, on a fresh array of the same form
+            ci2 = np.array(c["ctrs"]) if form != "list" else list(c["ctrs"])
+            first["direct"] = [[int(t), int(f)] for t, f in ra.partition_indices(ci2, c["lens"])]
+            first["direct_arg_after"] = [int(v) for v in ci2]
+            return first
         if kind == "plist":
             lens_arg = np.array(c["lens"], dtype=c["lens_dtype"]) if "lens_dtype" in c else c["lens"]
             rows = ra.partition_list(np.array(c["vals"]), lens_arg)
@@ -402,6 +540,19 @@ def oracle(c, r):
                 break
         if len(r["ctr"]) != len(c["ctrs"]):
             out.append(("partition-indices", "number of pairs %d != %d" % (len(r["ctr"]), len(c["ctrs"]))))
+        if "args_after" in r:
+            form = c.get("ctr_form", "list")
+            if r["args_after"] != {"ctrs": c["ctrs"], "asg": c["asg"], "dst": c["dst"]}:
+                out.append(("partition-argument-modified", "partition(%s) with flat centre indices %s (%s): the result's own arrays hold centre "
+                            "indices %s afterwards" % (lens, c["ctrs"], form, r["args_after"]["ctrs"])))
+            if r["again"] != {"asg": r["asg"], "dst": r["dst"], "ctr": r["ctr"]}:
+                out.append(("partition-twice", "partitioning the same result (flat centre indices %s as %s, lengths %s) a second time gives "
+                            "centre pairs %s, the first time %s" % (c["ctrs"], form, lens, r["again"]["ctr"], r["ctr"])))
+            if r["direct_arg_after"] != c["ctrs"]:
+                out.append(("partition-argument-modified", "partition_indices(%s as %s, %s) left %s in the caller's indices" % (
+                    c["ctrs"], form, lens, r["direct_arg_after"])))
+            if r["direct"] != r["ctr"] and not any(k == "partition-indices" for k, _ in out):
+                out.append(("partition-indices", "partition_indices on its own gives %s, through ClusterResult.partition %s" % (r["direct"], r["ctr"])))
     elif kind == "plist":
         if sum(c["lens"]) != c["n"]:
             out.append(("partition-list-accepts-wrong-total", str(r)))
@@ -428,7 +579,12 @@ def oracle(c, r):
                     # (observed up to 4.6e-6 over 6000 frame/centre pairs), i.e. 2e-4 in the RMSD itself at RMSD 0.012
                     if not (0 <= a < ref.shape[0]) or (abs(ref[a, j] - d) > 1e-4 and abs(ref[a, j] ** 2 - d ** 2) > 5e-5) \
                             or ref[a, j] > ref[:, j].min() + 1e-4:
-                        out.append(("batch-reassign-nearest", "trajectory %d frame %d label %d dist %s ref %s" % (i, j, a, d, ref[:, j].tolist())))
+                        extra = ""
+                        if c.get("sets"):
+                            extra = " (reassign with %d sets, %s, selections by %s; this trajectory belongs to the set selecting atom group %d)" % (
+                                c["sets"]["n"], "one topology file named for every set" if c["sets"]["same_top"] else "one topology file per set",
+                                c["sets"]["sel"], r["groups"][i])
+                        out.append(("batch-reassign-nearest", "trajectory %d frame %d label %d dist %s ref %s%s" % (i, j, a, d, ref[:, j].tolist(), extra)))
                         break
     return out
 
@@ -536,10 +692,20 @@ def tags(c, r):
                 t.append("predict-short-after-refit" if s == "predP" else "predict-long-after-refit")
     if c["kind"] == "batch_reassign" and "n_batches" in r:
         t.append("reassign-%s-batches" % ("1" if r["n_batches"] == 1 else "2" if r["n_batches"] == 2 else "3+"))
+        if c.get("sets"):
+            t.append("reassign-several-sets-same-topology-file" if c["sets"]["same_top"] else "reassign-several-sets-topology-file-each")
+    if c["kind"] == "partition" and c.get("ctr_form", "list") != "list":
+        t.append("partition-ndarray-centre-indices")
+        if "err" not in r and all(v >= c["lens"][0] for v in c["ctrs"]) and len(c["lens"]) >= 2:
+            t.append("partition-ndarray-centres-beyond-trajectory-0")
+    if c["kind"] == "predict" and c.get("mixed"):
+        t.append("predict-wider-dtype-than-fit")
+        t.append("predict-wider-dtype-than-fit-" + c["dtype"])
     return t
 
 
-ESSENTIAL_TAGS = ["assign-more-than-32-centres", "predict-more-than-32-centres", "non-contiguous-data", "buffer-reusing-metric",
+ESSENTIAL_TAGS = ["reassign-several-sets-same-topology-file", "partition-ndarray-centres-beyond-trajectory-0", "predict-wider-dtype-than-fit-float32",
+                  "predict-wider-dtype-than-fit-int32", "predict-wider-dtype-than-fit-int64", "assign-more-than-32-centres", "predict-more-than-32-centres", "non-contiguous-data", "buffer-reusing-metric",
                   "md-trajectory-centres", "frame-by-frame-branch", "predict-history-kcenters", "predict-history-khybrid", "predict-history-ndarray", "predict-history-md-trajectory",
                   "predict-short-after-refit", "predict-long-after-refit", "reassign-3+-batches",
                   "narrow-dtype-lengths", "assign", "predict", "partition", "plist", "fcc", "batches", "batch_reassign", "square", "ragged",
